@@ -99,6 +99,7 @@ class Ctx:
         self.stats = Stats()
         self.vars = {}  # name -> z3 const (all symbolic inputs / stub outputs ever created, in creation order)
         self.pending = [[]]
+        self.tripped = None
         self.nfresh = 0
         self._rnd = random.Random(12345)
         self.reset_path([])
@@ -106,6 +107,7 @@ class Ctx:
     # ---- per path state
     def reset_path(self, prefix):
         self.prefix = prefix
+        self.tripped = None
         self.decisions = []
         self.pc = []
         self.facts = {"def": [], "pre": []}  # named fact groups
@@ -162,14 +164,23 @@ class Ctx:
             f = f.t
         if isinstance(f, (bool, np.bool_)):
             if not f:
-                raise Abort()
+                self._trip(Abort())
             return
         self.add_fact("pre", f)
 
+    def _trip(self, exc):
+        """raise an executor control exception and remember it: code under analysis with a bare `except:` (e.g.
+        active_set_nnls) swallows BaseException; the next executor call on the path re-raises it and explore() checks
+        the flag when the path function returns, so a swallowed abort can never continue as if it were a real path"""
+        self.tripped = exc
+        raise exc
+
     # ---- solver plumbing
     def _check(self, solver, *assumptions, timeout_ms=None):
+        if self.tripped is not None:
+            raise self.tripped
         if self.deadline is not None and time.time() > self.deadline:
-            raise BudgetExceeded("config deadline")
+            self._trip(BudgetExceeded("config deadline"))
         tmo = int(timeout_ms or self.branch_timeout_ms)
         solver.set("timeout", tmo)
         t0 = time.time()
@@ -191,9 +202,11 @@ class Ctx:
 
     def free_choice(self, label="choice"):
         """fork on a fresh, unconstrained boolean (both polarities are feasible by construction: no solver call)"""
+        if self.tripped is not None:
+            raise self.tripped
         i = len(self.decisions)
         if i >= self.max_depth:
-            raise BudgetExceeded(f"depth>{self.max_depth}")
+            self._trip(BudgetExceeded(f"depth>{self.max_depth}"))
         if i < len(self.prefix):
             d = self.prefix[i]
         else:
@@ -215,9 +228,11 @@ class Ctx:
         hit = self._decided.get(cond.get_id())
         if hit is not None and hit[0].eq(cond):
             return hit[1]
+        if self.tripped is not None:
+            raise self.tripped
         i = len(self.decisions)
         if i >= self.max_depth:
-            raise BudgetExceeded(f"depth>{self.max_depth}")
+            self._trip(BudgetExceeded(f"depth>{self.max_depth}"))
         if i < len(self.prefix):
             d = self.prefix[i]
         else:
@@ -234,7 +249,7 @@ class Ctx:
             elif f:
                 d = False
             else:
-                raise Abort()
+                self._trip(Abort())
         self.decisions.append(d)
         self._decided[cond.get_id()] = (cond, d)
         c = cond if d else z3.Not(cond)
@@ -889,13 +904,13 @@ class SR:
             s = CTX.solver
             r = CTX._check(s)
             if r != "sat":
-                raise BudgetExceeded("cannot concretise integer-valued term")
+                CTX._trip(BudgetExceeded("cannot concretise integer-valued term"))
             m = s.model()
             v = z3val_to_fraction(m.eval(self.t, model_completion=True))
             k = int(math.floor(v))
             if CTX.branch(self.t == k):
                 return k
-        raise BudgetExceeded("too many integer values")
+        CTX._trip(BudgetExceeded("too many integer values"))
 
     def __index__(self):
         return self._concretise_int()
@@ -1171,6 +1186,8 @@ def explore(fn, mode="merge", max_paths=2000, max_seconds=None, branch_timeout_m
             try:
                 res = fn()
                 exc = None
+                if c.tripped is not None:
+                    raise c.tripped
             except Abort:
                 continue
             except BudgetExceeded as e:
@@ -1178,6 +1195,12 @@ def explore(fn, mode="merge", max_paths=2000, max_seconds=None, branch_timeout_m
                 out.append(PathRecord(list(c.decisions), None, ("BudgetExceeded", str(e)), len(c.pc)))
                 continue
             except Exception as e:  # tensorly raising on this path is a result
+                if isinstance(c.tripped, Abort):
+                    continue
+                if c.tripped is not None:
+                    complete = False
+                    out.append(PathRecord(list(c.decisions), None, ("BudgetExceeded", str(c.tripped)), len(c.pc)))
+                    continue
                 res = None
                 exc = (type(e).__name__, str(e)[:300])
                 if os.environ.get("VT_DEBUG_EXC"):
